@@ -13,10 +13,23 @@ pub enum Sel {
     Fn(&'static str),
     /// `impl Type { fn name }` (inherent impl)
     Method(&'static str, &'static str),
+    /// `impl From<Src> for Dst { fn from }`: (Dst, Src) — used by `?`
+    From(&'static str, &'static str),
 }
 
 pub const MANIFEST: &[(&str, &[Sel])] = &[
-    ("renet/src/packet.rs", &[Sel::Const("SLICE_SIZE")]),
+    (
+        "renet/src/packet.rs",
+        &[
+            Sel::Const("SLICE_SIZE"),
+            Sel::Struct("Slice"),
+            Sel::Enum("Packet"),
+            Sel::Enum("SerializationError"),
+            Sel::From("SerializationError", "BufferTooShortError"),
+            Sel::Method("Packet", "to_bytes"),
+            Sel::Method("Packet", "from_bytes"),
+        ],
+    ),
     (
         "renetcode/src/replay_protection.rs",
         &[
